@@ -56,6 +56,7 @@ def plan(tier):
 
     fam = c12.family('quick')
     units += [('props', tier, fam[k::24]) for k in range(24)]
+    units += [('matrix', tier, k, 16) for k in range(16)]
     return units
 
 
@@ -189,6 +190,22 @@ def run(unit):
             r.count('validated')
             if i % 997 == 0:
                 r.sample({'initial': text})
+    elif what == 'matrix':
+        from hplmc import sigmatrix
+
+        _, _, k, shards = unit
+        for i, (desc, t) in enumerate(sigmatrix.valid_cases()):
+            if i % shards != k:
+                continue
+            text = absyn.expr_text(t)
+            r.count('evaluations')
+            st, p = impl.try_parse('pred', '{ ' + text + ' }')
+            if st != 'ok':
+                r.notes['rejected:' + st] += 1
+                continue
+            explore(p, f'parse_predicate({{ {text} }})', r, 1, seen)
+            r.count('validated')
+        r.sample({'initial': text})
     else:
         from hplmc.checks import c12
 
@@ -218,7 +235,7 @@ def replay(w):
 def describe(tier):
     b = bounds(tier)
     return {
-        'rule': f"initial states: parser results for every Bool/Num/Str term with <= {b['nodes']} nodes (fields, alias fields, literals, 4 arithmetic / 4 comparison / 4 logical operators, abs len sum max min gcd bool str, sets, ranges, indexing, inclusion, both quantifiers) as expression and predicate, and the C12 property family; transitions: simplify, split_and elements, refactor_reference halves, both replacements, negate, join with 6 predicates, canonical_form outputs; BFS to depth {b['depth']} with states deduplicated on the typed lift; the per-node invariant is evaluated in every state.",
+        'rule': f"initial states: parser results for every Bool/Num/Str term with <= {b['nodes']} nodes (fields, alias fields, literals, 4 arithmetic / 4 comparison / 4 logical operators, abs len sum max min gcd bool str, sets, ranges, indexing, inclusion, both quantifiers) as expression and predicate, the C12 property family, and the signature matrix (every operator and built-in function with every valid argument shape; depth 1); transitions: simplify, split_and elements, refactor_reference halves, both replacements, negate, join with 6 predicates, canonical_form outputs; BFS to depth {b['depth']} with states deduplicated on the typed lift; the per-node invariant is evaluated in every state.",
         'bounds': b,
         'exhaustive': True,
         'assumptions': ['invariant table in hplmc/ref/types.py is the reference; bound-variable use is checked with the weakest reading (non-empty intersection with the element type)'],
